@@ -18,6 +18,24 @@ from common import SplitMix
 MODULES = ["DynasmVerif.Props.C20"]
 
 
+def split_ext(e):
+    """names in an ExtensionFlags display string such as `cd`, `mzcb`, `zbb_zcb`, `dzfa` (same grammar as parse_features)"""
+    e = e.lower()
+    out, i = [], 0
+    while i < len(e):
+        if e[i] == "_":
+            i += 1
+        elif e[i] == "z":
+            j = e.find("_", i)
+            j = len(e) if j < 0 else j
+            out.append(e[i:j])
+            i = j
+        else:
+            out.append(e[i])
+            i += 1
+    return out
+
+
 def known_lists(run):
     unstable, shadowed = [], []
     for k in run.known.get("open", []):
@@ -108,7 +126,7 @@ def check(run):
             valid = ("rv32" if "32" in target else "rv64") in isas
             sets = [("none", "none"), ("all", all_spelling)]
             for e in exts[: (len(exts) if thorough else 2)]:
-                parts = [x for x in re.split(r"_", e) if x]
+                parts = split_ext(e)
                 sets.append(("exact:" + e, ", ".join(parts)))
                 for drop in range(len(parts)):
                     rest = parts[:drop] + parts[drop + 1:]
@@ -157,7 +175,17 @@ def check(run):
                           f"`{res['all'][1][3:]}` is rejected with every extension enabled", {"stream": "plug", "input": [res["all"][1]], "impl": [res["all"][0]]})
         # nothing of the mnemonic may be accepted when none of the alternatives of any of its forms is enabled: 'none' = only I
         same = [g for g in fs if g.mnemonic == f.mnemonic and (("rv32" if "32" in target else "rv64") in g.extra[0])]
-        needs_more_than_i = all(all(set(x for x in re.split(r"_", e) if x) - {"i"} for e in g.extra[1]) for g in same)
+        needs_more_than_i = all(all(set(split_ext(e)) - {"i"} for e in g.extra[1]) for g in same)
+        # a set that lacks one extension of every alternative of every form of the mnemonic must be rejected
+        for label in acc:
+            if label.startswith("minus:") and acc[label]:
+                spelled = res[label][1].split(".feature", 1)[1].split(";")[0]
+                enabled = set(x.strip() for x in spelled.split(",") if x.strip() and x.strip() != "none") | {"i"}
+                if not any(any(set(split_ext(e)) <= enabled for e in g.extra[1]) for g in same) and n_viol < 4:
+                    n_viol += 1
+                    run.violation("failing-input", {"kind": "accepted-with-missing-extension", "mnemonic": f.mnemonic, "target": target},
+                                  f"`{res[label][1][3:]}` is accepted although no form of `{f.mnemonic}` has all its required extensions enabled (enabled: {sorted(enabled)})",
+                                  {"stream": "plug", "input": [res[label][1]], "impl": [res[label][0]]})
         if needs_more_than_i and acc.get("none") and n_viol < 4:
             n_viol += 1
             run.violation("failing-input", {"kind": "accepted-without-features", "mnemonic": f.mnemonic, "target": target},
@@ -177,7 +205,8 @@ def check(run):
     stats["riscv_unstable_observed"] = sorted(unstable_seen)
     # ---- spellings of extension strings: harness vs Lean model
     spell_reqs, spell_lean = [], []
-    names = all_ext
+    names = all_ext + ["ztso", "ztso"]
+    groups_ = []
     for _ in range(400 if thorough else 120):
         k = rng.range(1, 6)
         chosen = [rng.choice(names) for _ in range(k)] if names else ["i"]
@@ -192,6 +221,7 @@ def check(run):
         variants.append(["".join(ch.upper() if rng.chance(1, 2) else ch for ch in x) for x in singles + longs])
         if {"m", "a", "f", "d", "zicsr", "zifencei"} <= set(chosen):
             variants.append(["g"] + [c for c in singles + longs if c not in ("m", "a", "f", "d", "zicsr", "zifencei")])
+        groups_.append((len(spell_reqs), len(variants)))
         for v in variants:
             spell_reqs.append("feat " + ", ".join(v))
             spell_lean.append("#eval parseFeatures Gen.extTable Gen.exI [" + ", ".join(f'str "{x}"' for x in v) + "]")
@@ -201,6 +231,15 @@ def check(run):
                    '#eval parseFeatures Gen.extTable Gen.exI [str "gc"]', '#eval parseFeatures Gen.extTable Gen.exI [str "IMAC"]',
                    '#eval parseFeatures Gen.extTable Gen.exI [str "imac"]']
     impl_sp = plug(spell_reqs)
+    # the property itself on the implementation: equivalent spellings of one extension set enable identical sets
+    for (start, n) in groups_:
+        vals = [impl_sp[i].split()[0] for i in range(start, start + n)]
+        if len(set(vals)) > 1:
+            j = next(i for i in range(1, n) if vals[i] != vals[0])
+            run.violation("failing-input", {"kind": "spellings-differ"},
+                          f"equivalent spellings enable different extension sets: `{spell_reqs[start][5:]}` → {vals[0]} but `{spell_reqs[start + j][5:]}` → {vals[j]}",
+                          {"stream": "plug", "input": [spell_reqs[start], spell_reqs[start + j]], "impl": [impl_sp[start], impl_sp[start + j]]})
+            break
     if gen_err is None:
         rc, out = lean_eval(spell_lean, ["DynasmVerif.Generated.FeatData"])
         model_sp = re.findall(r"^(\d+)$", out, re.M)
